@@ -441,7 +441,7 @@ def _deref(I, info, args):
     if sh == 'PathBuf':
         return p
     if sh == 'RefMulti':
-        return Ptr(Cell(inner.fields[1]))
+        return Ptr(Cell(inner.fields[1])) if not isinstance(inner.fields[1], Ptr) else inner.fields[1]
     if sh == 'WithCtx':
         body = I.P.impls.get(('WithCtx', 'Deref', 'deref'))
         return I.run_body(body, args, 'WithCtx')
@@ -471,7 +471,7 @@ def _le(I, info, args):
         return (a.variant + 1) <= b.variant
     if isinstance(a, Adt) and a.ty == 'LevelFilter' and b.ty == 'LevelFilter':
         return a.variant <= b.variant
-    raise Unsupported('PartialOrd::le %r %r' % (a, b))
+    return _cmp(I, a, b, 'le')
 
 
 @trait('Into', 'into')
@@ -999,9 +999,15 @@ def _opt_unwrap_or_default(I, info, args):
     v = _opt(I, args[0])
     if v.variant == 1:
         return v.fields[0]
+    if 'PathBuf' in info['raw']:
+        return _mk_path('')
     if 'String' in info['raw']:
         return StrV('')
-    raise Unsupported('unwrap_or_default')
+    if 'Vec<' in info['raw']:
+        return VecV([])
+    if 'bool' in info['raw']:
+        return False
+    raise Unsupported('unwrap_or_default for %s' % info['raw'])
 
 
 @path(('Option', 'cloned'), ('Option', 'copied'))
@@ -1962,3 +1968,143 @@ def _lookup_char_pos(I, info, args):
 @path(('str', 'to_owned'), ('String', 'to_owned'))
 def _str_to_owned(I, info, args):
     return as_str(I, args[0])
+
+
+# ---------------------------------------------------------------- paths (concrete strings; std::path semantics for '/'-separated unix paths)
+
+def _path_str(I, v):
+    v = deref(v)
+    if isinstance(v, Adt) and v.ty in ('PathBuf', 'Path'):
+        v = v.fields[0]
+    if isinstance(v, StrV):
+        if not v.concrete():
+            raise Unsupported('symbolic path')
+        return v.s
+    raise Unsupported('path value %r' % (v,))
+
+
+def _mk_path(s):
+    return Adt('PathBuf', None, [StrV(s)])
+
+
+@path(('Path', 'new'))
+def _path_new(I, info, args):
+    return Ptr(Cell(_mk_path(_path_str(I, args[0]))))
+
+
+def _components(p):
+    return [c for c in p.split('/') if c not in ('', '.')]
+
+
+@path(('Path', 'parent'), ('PathBuf', 'parent'))
+def _path_parent(I, info, args):
+    p = _path_str(I, args[0])
+    comps = _components(p)
+    if not comps:
+        return none()          # "" and "/" have no parent
+    head = '/'.join(comps[:-1])
+    parent = ('/' + head) if p.startswith('/') else head
+    return some(Ptr(Cell(_mk_path(parent))))
+
+
+@path(('Path', 'is_absolute'), ('PathBuf', 'is_absolute'))
+def _path_is_abs(I, info, args):
+    return _path_str(I, args[0]).startswith('/')
+
+
+@path(('Path', 'join'), ('PathBuf', 'join'))
+def _path_join(I, info, args):
+    a = _path_str(I, args[0])
+    b = _path_str(I, args[1])
+    if b.startswith('/'):
+        return _mk_path(b)
+    if a == '' or a.endswith('/'):
+        return _mk_path(a + b)
+    return _mk_path(a + '/' + b)
+
+
+@path(('Path', 'file_name'))
+def _path_file_name(I, info, args):
+    p = _path_str(I, args[0])
+    comps = [c for c in p.split('/') if c != '']
+    comps = [c for c in comps if c != '.']
+    if not comps or comps[-1] == '..':
+        return none()
+    return some(Adt('OsStr', None, [StrV(comps[-1])]))
+
+
+@path(('OsStr', 'to_str'), ('Path', 'to_str'))
+def _osstr_to_str(I, info, args):
+    return some(as_str(I, args[0]))
+
+
+@path(('str', 'get'))
+def _str_get(I, info, args):
+    s = as_str(I, args[0])
+    r = args[1]
+    if not s.concrete():
+        raise Unsupported('symbolic str::get')
+    if isinstance(r, Adt) and r.ty == 'RangeFrom':
+        start = I.concretize_int(r.fields[0])
+        b = s.s.encode('utf8')
+        if start > len(b):
+            return none()
+        try:
+            return some(StrV(b[start:].decode('utf8')))
+        except UnicodeDecodeError:
+            return none()
+    raise Unsupported('str::get with %r' % (r,))
+
+
+@path(('Error', 'new'), ('Error', 'msg'), ('error', 'new'), ('error', 'msg'))
+def _anyhow_new(I, info, args):
+    return Opaque('anyhow::Error')
+
+
+@path(('DashMap', 'iter'))
+def _dashmap_iter(I, info, args):
+    dm = deref(args[0])
+    buckets = dm.fields[0]
+    n = len(buckets)
+    order = I.grammar.iteration_order(I, n, 'DashMap::iter') if I.grammar is not None and hasattr(I.grammar, 'iteration_order') else list(range(n))
+    return iter_values(I, [Adt('RefMulti', None, [buckets[i][0], buckets[i][1]]) for i in order])
+
+
+@path(('RefMulti', 'key'))
+def _refmulti_key(I, info, args):
+    rm = deref(args[0])
+    return Ptr(Cell(rm.fields[0]))
+
+
+def _ord_val(v):
+    v = deref(v)
+    if isinstance(v, Adt) and v.ty in ('BytePos', 'CharPos') and len(v.fields) == 1:
+        return v.fields[0]
+    if isinstance(v, (int, bool)) or is_sym(v):
+        return v
+    raise Unsupported('ordering of %r' % (v,))
+
+
+def _cmp(I, a, b, op):
+    a, b = _ord_val(a), _ord_val(b)
+    if isinstance(a, int) and isinstance(b, int):
+        return {'lt': a < b, 'le': a <= b, 'gt': a > b, 'ge': a >= b}[op]
+    a, b = I.z_pair(a, b)
+    if z3.is_bv(a):
+        return {'lt': z3.ULT(a, b), 'le': z3.ULE(a, b), 'gt': z3.UGT(a, b), 'ge': z3.UGE(a, b)}[op]
+    return {'lt': a < b, 'le': a <= b, 'gt': a > b, 'ge': a >= b}[op]
+
+
+@trait('PartialOrd', 'lt')
+def _lt(I, info, args):
+    return _cmp(I, args[0], args[1], 'lt')
+
+
+@trait('PartialOrd', 'gt')
+def _gt(I, info, args):
+    return _cmp(I, args[0], args[1], 'gt')
+
+
+@trait('PartialOrd', 'ge')
+def _ge(I, info, args):
+    return _cmp(I, args[0], args[1], 'ge')
